@@ -95,12 +95,19 @@ func (it Item) text() string {
 }
 
 var syntaxFaults = []string{"foo(.\n", "p1(1) p1(2).\n", ") .\n", "'unterminated\n", "p1(1\n", "\"open string\n", "/* open comment\n", "/* open * comment\n", "/*\n * boxed\n * comment\n", "/* nearly closed *", "/**", "% line comment, then /* open\n/* x", "X = [-\n", "foo :- .\n", "p1(1)).\n", "0'\n"}
+
+// the last read-term of the text without its end token, followed by nothing but layout text
+var endFaults = []string{"foo(1)", "foo(1)\n", "foo(1) % no end\n", "foo(1) /* no end */", "foo(1) :- true\n\n", "foo :- bar, baz"}
+
+// directives that are fine by themselves, placed between two clauses of one predicate: the clauses are then not consecutive
+// read-terms of the text (the repository's own wording of the discontiguity error)
+var separators = []string{":- initialization(true).\n", ":- true.\n", ":- initialization(write(zz)).\n"}
 var nonCallable = []string{"1.\n", "foo :- 1.\n", "foo :- bar, 2.\n", "3 :- true.\n", "1.5.\n"}
 var badDirectives = []string{":- fail.\n", ":- throw(oops).\n", ":- undefined_directive_zz.\n", ":- X is foo + 1.\n"}
 
 func (f Fault) text() string {
 	switch f.Kind {
-	case "syntax", "noncallable", "directive":
+	case "syntax", "noncallable", "directive", "separated":
 		return f.Arg
 	case "discontiguous":
 		return fmt.Sprintf("%s.\n", head(f.Arg, "999"))
@@ -350,6 +357,22 @@ func check(c Case) (st stats, err error) {
 		// fault-injected variants first: each must fail and leave everything as it was
 		for _, f := range s.Faults {
 			f := f
+			if f.Kind == "separated" {
+				// the point of reference is the same text with `:- true.` in that place: that a directive separates the
+				// clauses of a predicate (they are no longer consecutive read-terms) is this implementation's reading of
+				// "separated by others"; what is demanded is that every harmless directive is treated like that one
+				ref := f
+				ref.Arg = ":- true.\n"
+				text := render(s.Items, &ref)
+				e := load(text)
+				if e == nil {
+					return st, nil // directives do not separate clauses here: the text is loaded, the case ends
+				}
+				st.failedLoads++
+				if err := compareAll(i, m, fmt.Sprintf("after the failed load of step %d (fault %v, error %s) of\n%s", k+1, ref, e, text)); err != nil {
+					return st, err
+				}
+			}
 			text := render(s.Items, &f)
 			e := load(text)
 			st.failedLoads++
@@ -467,6 +490,18 @@ func genFaults(t *rapid.T, items []Item, all bool) []Fault {
 			Fault{Pos: pos, Kind: "syntax", Arg: syntaxFaults[u(t, len(syntaxFaults), "syn")]},
 			Fault{Pos: pos, Kind: "noncallable", Arg: nonCallable[u(t, len(nonCallable), "nc")]},
 			Fault{Pos: pos, Kind: "directive", Arg: badDirectives[u(t, len(badDirectives), "dir")]})
+		if pos == len(items) {
+			out = append(out, Fault{Pos: pos, Kind: "syntax", Arg: endFaults[u(t, len(endFaults), "end")]})
+		}
+		if pos > 0 && pos < len(items) && items[pos-1].Kind == "clause" && items[pos].Kind == "clause" && items[pos-1].Pred == items[pos].Pred {
+			declared := false
+			for _, it := range items {
+				declared = declared || (it.Kind == "decl" && it.Decl == "discontiguous" && it.Pred == items[pos].Pred)
+			}
+			if !declared {
+				out = append(out, Fault{Pos: pos, Kind: "separated", Arg: separators[u(t, len(separators), "sep")]})
+			}
+		}
 		// a discontiguity: a clause of a predicate that already has clauses in the text, placed after a clause of another
 		// predicate, without a discontiguous declaration
 		if pos > 0 && items[pos-1].Kind == "clause" {
@@ -512,8 +547,8 @@ func genCase(all bool) *rapid.Generator[Case] {
 func TestProp(t *testing.T) {
 	r := h.Start(t, "C20")
 	defer r.Finish(t)
-	r.Rule("rapid-generated histories of 1-4 loads on one interpreter (through Exec, through consult/1 of a file, or through consult/1 on a host file system whose files return 13 bytes per read - a new file name after every successful load, the same name again after a failed one), optionally followed by assertz on a dynamic predicate. A text defines 1-3 of the predicates p1..p4 (unary) and w3/3 (structured head arguments) by clauses carrying serial numbers (facts, rules, and rules whose body is a top-level disjunction - one clause of the text, two alternatives in source order), in runs of 1-7 clauses (now and then 30-74), several interleaved runs for predicates declared discontiguous, with dynamic/discontiguous/multifile declarations in the three forms (p/1, [p/1], (p/1, q/1)), declaration-only predicates, output directives between runs of different predicates and initialization/1 goals that print what they can see. Fault injection: before the good text is loaded, one fault of each kind is injected at every position (quick: at a third of the positions) - a syntax error (unbalanced bracket, stray token, unterminated quoted atom / string / comment / 0', missing end), a non-callable clause, a failing / throwing / unknown directive, a clause that makes a predicate discontiguous without declaration - and every such text is loaded on the same interpreter. Oracle: a model map predicate -> clause list. A faulty text must make the load return an error and leave every predicate (of this and of earlier texts) enumerating exactly as before (answers, or the same existence error); a good text must load, give every predicate of the text exactly its clauses in source order (replacing the earlier definition unless multifile on both sides, then appended), the directives' output in text order followed by the initialization goals' output computed on the loaded database. Non-trivial: a text with >= 2 predicates or interleaved runs loaded over an earlier text, with faults injected. Distinct by case.",
-		"the load model in props/c20", "effects of directives that ran before a fault are not asserted (only output directives are generated); a directive between two clauses of one predicate is never generated")
+	r.Rule("rapid-generated histories of 1-4 loads on one interpreter (through Exec, through consult/1 of a file, or through consult/1 on a host file system whose files return 13 bytes per read - a new file name after every successful load, the same name again after a failed one), optionally followed by assertz on a dynamic predicate. A text defines 1-3 of the predicates p1..p4 (unary) and w3/3 (structured head arguments) by clauses carrying serial numbers (facts, rules, and rules whose body is a top-level disjunction - one clause of the text, two alternatives in source order), in runs of 1-7 clauses (now and then 30-74), several interleaved runs for predicates declared discontiguous, with dynamic/discontiguous/multifile declarations in the three forms (p/1, [p/1], (p/1, q/1)), declaration-only predicates, output directives between runs of different predicates and initialization/1 goals that print what they can see. Fault injection: before the good text is loaded, one fault of each kind is injected at every position (quick: at a third of the positions) - a syntax error (unbalanced bracket, stray token, unterminated quoted atom / string / comment / 0', missing end; at the end of the text also a last read-term without its end token followed by nothing but layout or a comment), a non-callable clause, a failing / throwing / unknown directive, a clause that makes a predicate discontiguous without declaration, a harmless directive (initialization/1, true) between two clauses of an undeclared predicate, which must be treated as `:- true.` in that place is (the clauses are then not consecutive read-terms: the load fails; were it to load, the case would end there) - and every such text is loaded on the same interpreter. Oracle: a model map predicate -> clause list. A faulty text must make the load return an error and leave every predicate (of this and of earlier texts) enumerating exactly as before (answers, or the same existence error); a good text must load, give every predicate of the text exactly its clauses in source order (replacing the earlier definition unless multifile on both sides, then appended), the directives' output in text order followed by the initialization goals' output computed on the loaded database. Non-trivial: a text with >= 2 predicates or interleaved runs loaded over an earlier text, with faults injected. Distinct by case.",
+		"the load model in props/c20", "effects of directives that ran before a fault are not asserted (only output directives are generated)")
 	r.Regress(t)
 	if r.Failed() {
 		return
